@@ -759,6 +759,9 @@ func (c *Ctx) ruleR08d(rule string) {
 			if len(r.Results) != 3 || ssax.IsNilConst(ssax.Strip(r.Results[0])) {
 				continue
 			}
+			if helperReturnsNilFirst(c, r.Results[0]) {
+				continue // the result of a no-match helper: no node
+			}
 			ctor, ok := ssax.Strip(r.Results[0]).(*ssa.Call)
 			if !ok || ctor.Call.StaticCallee() == nil {
 				c.R.Undecided(rule, name+" node shape", name, c.P.InstrPos(r), "returned node is not a constructor call")
@@ -805,3 +808,26 @@ func (c *Ctx) ruleR08d(rule string) {
 }
 
 var _ = fmt.Sprintf
+
+// helperReturnsNilFirst: v is result #0 of a library helper all of whose returns have a nil first result.
+func helperReturnsNilFirst(c *Ctx, v ssa.Value) bool {
+	e, ok := v.(*ssa.Extract)
+	if !ok || e.Index != 0 {
+		return false
+	}
+	cl, ok := e.Tuple.(*ssa.Call)
+	if !ok {
+		return false
+	}
+	h := cl.Call.StaticCallee()
+	if h == nil || cl.Call.IsInvoke() || !c.P.InLib(h) || len(h.Blocks) == 0 {
+		return false
+	}
+	rets := ssax.Returns(h)
+	for _, r := range rets {
+		if len(r.Results) == 0 || !ssax.IsNilConst(ssax.Strip(r.Results[0])) {
+			return false
+		}
+	}
+	return len(rets) > 0
+}
